@@ -102,7 +102,8 @@ class C09(core.Check):
             k, what, exp, got = self._findings[0]
             if case['kind'] == 'hist':
                 op = case['ops'][k]['op'] if 0 <= k < len(case['ops']) else 'construct'
-                key = f'hist/{op}/{what.split(" on dataset")[0][:60]}'
+                tag = 'existing-dataset-altered' if 'altered the existing dataset' in what else what[:60]
+                key = f'hist/{op}/{tag}'
             else:
                 key = f'gen/{what[:60]}'
             return core.Violation(key, what, case, exp, got)
@@ -123,7 +124,7 @@ class C09(core.Check):
                     what = 'reported-permutation'
                 return core.Violation(f'hist/{op["op"]}/{what}',
                                       f'step {k} ({op}): the real dataset differs from the plain Python-list selection',
-                                      case, a, b)
+                                      dict(case, ops=case['ops'][:k + 1]), a, b)
         return core.Violation('hist/length', 'number of steps differs', case, ref, real_outcome)
 
     def _oracle_gen(self, case, out):
@@ -145,7 +146,7 @@ class C09(core.Check):
         if case['kind'] == 'gen':
             return core.stable_hash(case) if isinstance(out, dict) and len(out['ok']) >= 2 else None
         for o in out.get('steps', []):
-            if isinstance(o, dict) and any(len(d['df']) > 0 for d in o.get('derived', [])):
+            if isinstance(o, dict) and any(len(d['df'] or []) > 0 for d in o.get('derived', [])):
                 return core.stable_hash(case)
         return None
 
@@ -165,6 +166,9 @@ class C09(core.Check):
         for op, o in zip(case['ops'], out['steps']):
             k = op['op']
             res = 'raises' if o == 'raises' else 'ok'
+            if o == 'missing-source' or op['src'] >= len(lineage):
+                labs.append('missing-source')
+                continue
             hist = lineage[op['src']]
             if k == 'select':
                 ix = op['ix']
@@ -182,12 +186,12 @@ class C09(core.Check):
                     labs.append('split-lookup-after-shuffle')
                 if 'select' in hist:
                     labs.append('split-lookup-after-selection')
-                if any(len(d['df']) == 0 for d in o['derived']):
+                if any(len(d['df'] or []) == 0 for d in o['derived']):
                     labs.append('split-lookup-returns-empty')
             if isinstance(o, dict) and 'derived' in o:
                 for d in o['derived']:
                     lineage.append(hist | {k})
-                    if len(d['df']) == 0 and d['mat']:
+                    if len(d['df'] or []) == 0 and d['mat']:
                         labs.append('derives-empty-dataset')
                 if len(hist) >= 2:
                     labs.append('derived-from-derived-from-derived')
